@@ -15,7 +15,8 @@
 //!   * index built from exactly the current data => APPROXIMATE clause (`pred_approx`): <= k,
 //!     distinct, ordered, each key currently stored, of the query's dimension, true cosine score
 //!     (|d| <= 1e-5 absolute: the index reports 1-(1-cos), scale is [-1,1]).
-//! Score tolerance beyond that and HNSW recall are NOT covered.
+//! Score tolerance beyond that and HNSW recall are NOT covered.  The exact-search domain includes un-normalised
+//! near-duplicate vectors of large norm (where an algebraically equivalent distance formula cancels).
 //!
 //! Input classes that the property quantifies over but that fail for a reason of their own are kept
 //! under separate ids so that the main obligations stay attributable:
@@ -1037,6 +1038,18 @@ filtered search (auto / pre / post-filter, 6 filters over an Int tag) on every m
         }
     }
     cx.rep.sample(scn_json(&keyed(&[vec![1.0, 0.0], vec![T, 1.0]]), &[], Api::Metric(DistanceMetric::Euclidean), &[0.5, 1.0], 2, ""));
+    {   // un-normalised vectors whose norm is large compared with the distances being ranked (raw feature vectors, near-duplicates):
+        // a score computed through ||a||^2 + ||b||^2 - 2ab cancels here, the defining sum of squared differences does not
+        let near: Vec<Vec<f32>> = vec![vec![300.0, 400.0, 1200.0], vec![300.0, 400.0, 1199.6], vec![300.0, 400.0, 1200.3], vec![300.5, 399.75, 1200.0],
+                                       vec![-300.0, 400.0, 1200.0], vec![3000.5, -4000.25, 12000.125], vec![3000.5, -4000.25, 12000.0]];
+        let queries: Vec<Vec<f32>> = vec![vec![300.0, 400.0, 1200.0], vec![300.1, 400.0, 1199.9], vec![3000.5, -4000.25, 12000.0625]];
+        for ms in multisets(near.len(), if th { 5 } else { 4 }) {
+            let vs: Vec<Vec<f32>> = ms.iter().map(|i| near[*i].clone()).collect();
+            cx.scenario(&keyed(&vs), &[], &queries, &APIS, "");
+        }
+        let wide: Vec<Vec<f32>> = (0..5).map(|j| (0..19).map(|i| 1000.0 + (i as f32) * 37.5 + if i == 7 { 0.25 * j as f32 } else { 0.0 }).collect()).collect();
+        cx.scenario(&keyed(&wide), &[], &[wide[0].clone(), wide[3].clone()], &APIS, "");
+    }
 
     // ---- C/E. op sequences (store / overwrite / delete / build) before the search
     let keys = ["a", "b", "c"];
